@@ -1562,7 +1562,7 @@ def _unescaped_fresh(store: dict, items: list, call_terms: list) -> set:
             if it[0] != "ev":
                 continue
             e = it[1]
-            if e.kind in ("call", "inlined", "await") and not getattr(e, "pure", False):
+            if e.kind in ("call", "await") and not getattr(e, "pure", False):  # (an inlined call is read through: what its body does with the object follows in the items)
                 if any(t is not None and contains(t, b) for t in [e.recv, *e.args, *e.kwargs.values()]):
                     escaped = True
                     break
